@@ -283,6 +283,16 @@ def run_case(ctx, k, rng):
             bad[pos, 1] = np.nextafter(bad[pos, 0], -np.inf)
         norm = bool(rng.integers(0, 2))
         as_list = bool(rng.integers(0, 2))
+        if rng.random() < 0.3:
+            # the same in an integer dtype (grey levels of an image as uint8 / uint16, counts as int32): a bar that dies before it is
+            # born has a "length" that only looks positive after unsigned wrap-around
+            bi = np.round(np.abs(dgm) * float(rng.choice([1, 3, 20]))) + 1
+            bi[:, 1] = bi[:, 0] + np.maximum(np.round(bi[:, 1] - bi[:, 0]), 1)
+            bi[pos, 1] = bi[pos, 0] - (0 if how == "zero" else float(rng.integers(1, 3)))
+            cands = forms.int_dtypes_for(bi)       # only dtypes that hold every value (astype would wrap silently otherwise)
+            if cands:
+                bad = bi.astype(cands[int(rng.integers(0, len(cands)))])
+                ctx.note("must-raise barcodes in integer dtypes")
         arg = [gen_bars(rng, 3, "int"), bad] if as_list else bad
         ctx.set_payload({"dgm": arg, "normalize": norm})
         try:
